@@ -11,7 +11,7 @@ HOSTILE_KEYS = [
     "tab\there", "new\nline", "cr\rlf\r\n", "quote\"s'", "nul\u0000byte", "ctl\u0001\u001f\u007f",
     "café", "café", "é", "é", "☃ snowman", "\U0001F600",
     "k" * 300, "long-" + "x" * 4000, " leading", "trailing ", ".", "..", "index-v5", "content-v2/sha256",
-    "{\"key\":\"json\"}", "\\u0000", "%00", "a​b", "﻿bom", "CON", "nul",
+    "{\"key\":\"json\"}", "\\u0000", "%00", "a}", "x]", "[{", "}]\"",  "a​b", "﻿bom", "CON", "nul",
 ]
 
 ALGOS = ["sha256", "sha512", "sha1", "sha384", "xxh3"]
@@ -106,11 +106,53 @@ def deep_json(rng, depth=None):
     """a scalar wrapped `depth` times in one-element arrays or {"a": ..} objects: around the JSON
     reader's recursion limit (the record itself is one level; 128 levels are the limit)"""
     depth = depth or rng.choice([100, 125, 126, 127, 128, 129, 200])
-    v = rng.choice([1, "leaf", None, True])
+    v = rng.choice([1, "leaf", None, True, "]", "}}"])
     obj = rng.random() < 0.5
+    if rng.random() < 0.35:
+        # a string with unbalanced brackets IN FRONT of the nested part (text-level depth estimates
+        # must not be fooled by it); the wrapper object is one of the levels
+        depth -= 1
+    else:
+        obj = None if False else obj
+        for _ in range(depth):
+            v = {"a": v} if obj else [v]
+        return v
     for _ in range(depth):
         v = {"a": v} if obj else [v]
-    return v
+    return {"note": rng.choice(["see fig. 3]", "}", "]]}", "a]b}c"]), "tree": v}
+
+
+def deep_boundary_program(rng, lanes=("S", "Aa", "Ta")):
+    """systematic: metadata nested exactly at, one below and one above the JSON reader's limit x
+    shape (arrays, objects, behind a string with unbalanced brackets) x keys with and without a
+    lone bracket, each written OVER an existing entry of its key: the write either fails and the
+    old entry stays, or succeeds and the new entry is found - never success with the old entry"""
+    prog = {"keys": {}, "blobs": {}, "steps": []}
+    d_old = add_blob(prog, b"old %d" % rng.randrange(10 ** 6))
+    d_new = add_blob(prog, b"new %d" % rng.randrange(10 ** 6))
+    c = 0
+    for total in (126, 127, 128):
+        for shape in ("arr", "obj", "note"):
+            for kname in ("plain-%d", "k}-%d", "x]-%d"):
+                lane = rng.choice(lanes)
+                k = add_key(prog, kname % c)
+                v = 1
+                inner = total - (1 if shape == "note" else 0)
+                for _ in range(inner):
+                    v = {"a": v} if shape == "obj" else [v]
+                if shape == "note":
+                    v = {"note": rng.choice(["see fig. 3]", "}", "a]b}c"]), "tree": v}
+                prog["steps"].append({"op": "write", "lane": rng.choice(lanes), "key": k, "data": d_old, "algo": "sha256"})
+                w = "dw%d" % c
+                c += 1
+                prog["steps"] += [{"op": "open_writer", "lane": lane, "key": k, "opts": {"algo": "sha256", "meta": v},
+                                   "as": w, "plan": d_new, "via": "opts"},
+                                  {"op": "w_write", "lane": lane, "h": w, "data": d_new, "all": True},
+                                  {"op": "w_commit", "lane": lane, "h": w},
+                                  {"op": "metadata", "lane": rng.choice(lanes), "key": k},
+                                  {"op": "read", "lane": rng.choice(lanes), "key": k}]
+    prog["steps"].append({"op": "list", "lane": "S"})
+    return prog
 
 
 def rand_opts(rng, full=False):
@@ -352,6 +394,11 @@ def write_steps(rng, prog, lane, d, n, algo, key=None, how="oneshot", chunks=Non
             # runtimes takes long enough to trip the watchdog, which would be a false alarm)
             w["copy_step"] = max(rng.choice([1, 100, 1000, 5000, 8192, 9000]), (hi - lo) // 2000 + 1)
         st.append(w)
+        if rng.random() < 0.06:
+            # the writer sits idle for hours while others use the cache (another writer is opened
+            # and committed in the meantime)
+            st.append({"op": "env_raw", "action": "age_all"})
+            st.append({"op": "write", "lane": rng.choice(ALL_LANES), "data": d, "algo": "sha1"})
         if flushy and rng.random() < 0.5:
             st.append({"op": "w_flush", "lane": lane, "h": alias})
     if rng.random() < 0.2:
@@ -462,7 +509,7 @@ def commit_program(rng, ncases, lanes=ALL_LANES, big=False, algos=("sha256", "sh
         elif sz == "huge":
             # a declared size no allocation could satisfy: it is only ever compared at commit
             opts["size"] = rng.choice([2 ** 31, 2 ** 40, 2 ** 62, 2 ** 63 - 1, 2 ** 63, 2 ** 64 - 2, 2 ** 64 - 1])
-        sk = rng.choice(["none", "none", "right", "wrong", "other", "multi_weaker", "multi_stronger"])
+        sk = rng.choice(["none", "none", "right", "wrong", "other", "multi_weaker", "multi_stronger", "multi_same"])
         if noalgo and rng.random() < 0.5:
             sk = "other"
         if sk == "right":
@@ -476,6 +523,10 @@ def commit_program(rng, ncases, lanes=ALL_LANES, big=False, algos=("sha256", "sh
             # declared value is the writer's own, so the entry stays readable by key
             weaker = [a for a in ("sha1",) if ALGOS_RANK[a] > ALGOS_RANK[algo]]
             opts["sri"] = [{"a": algo, "d": d}] + ([{"a": weaker[0], "d": d}] if weaker else [])
+        elif sk == "multi_same":
+            # two digests of the SAME algorithm, one of them the data's (ssri orders them by their
+            # text; the first names the file - the contract mirrors that, as for multi_stronger)
+            opts["sri"] = [{"a": algo, "d": d}, {"a": algo, "d": wrong}]
         elif sk == "multi_stronger":
             # KNOWN FINDING (known_findings.json): the commit succeeds but the entry points at the
             # address of the stronger algorithm, where nothing was stored; the contract mirrors this
@@ -598,7 +649,7 @@ def abandon_program(rng, ncases, lanes=ALL_LANES, big=False):
 BUFSIZES = [1, 7, 1024, 8192, 65536]
 
 
-def retrieval_steps(rng, prog, lanes, key, algo, d, xcount, which=None, dest_exists_p=0.25, big=False):
+def retrieval_steps(rng, prog, lanes, key, algo, d, xcount, which=None, dest_exists_p=0.25, big=False, size=None):
     """every checked (and some unchecked) retrieval entry point for one entry"""
     st = []
     sri = [{"a": algo, "d": d}]
@@ -641,6 +692,12 @@ def retrieval_steps(rng, prog, lanes, key, algo, d, xcount, which=None, dest_exi
                            "prefill": rng.choice([None, "same", "same", "00" * 16, "abcdef"])})
             elif how < 0.4:
                 st.append({"op": "r_read", "lane": lane, "h": r, "n": 0, "copy": True})     # io::copy
+            elif how < 0.5 and size is not None:
+                # scatter reads (read_vectored): a first buffer of exactly the entry's size (or one
+                # read buffer) with a small second one behind it, then the rest
+                first = rng.choice([size, size, bs, max(1, size // 2)])
+                st.append({"op": "r_read", "lane": lane, "h": r, "n": first + 16, "split": [first, 0, 16]})
+                st.append({"op": "r_read", "lane": lane, "h": r, "n": bs, "all": True})
             elif how < 0.75:
                 st.append({"op": "r_read", "lane": lane, "h": r, "n": bs, "all": True})
             else:
@@ -721,6 +778,12 @@ def retrieve_program(rng, rounds, lanes=ALL_LANES, big=False, algos=ALGOS, exhau
                 second.update({"key": k} if rng.random() < 0.5 else {"sri": sri})
                 own.append(second)
             own += [{"op": "read", "lane": rng.choice(lanes), "key": k}, {"op": "read", "lane": rng.choice(lanes), "sri": sri}]
+            if rng.random() < 0.4:
+                # the extracted hard link made read-only by its owner, then the entry removed from
+                # the cache: the file outside keeps its bytes AND its permission bits
+                own.append({"op": "env_chmod", "id": x, "mode": rng.choice([0o400, 0o444])})
+                own.append(rng.choice([{"op": "remove_hash", "lane": rng.choice(lanes), "sri": sri},
+                                       {"op": "remove_fully", "lane": rng.choice(lanes), "key": k}]))
             # (the address holds regular pristine content here: every round ends with a re-write)
             prog["steps"] += own
             prog["steps"].append({"op": "write", "lane": rng.choice(lanes), "key": k, "data": d, "algo": a})
@@ -740,7 +803,7 @@ def retrieve_program(rng, rounds, lanes=ALL_LANES, big=False, algos=ALGOS, exhau
         which = None
         if big or exhaustive is not None:
             which = rng.sample(["read_k", "read_h", "reader_k", "reader_h", "copy", "hard_link", "reflink"], 3)
-        prog["steps"] += retrieval_steps(rng, prog, lanes, k, a, d, xc, which, big=big)
+        prog["steps"] += retrieval_steps(rng, prog, lanes, k, a, d, xc, which, big=big, size=n)
         # heal: re-writing the same data replaces whatever is at the address
         prog["steps"].append({"op": "write", "lane": rng.choice(lanes), "key": k, "data": d, "algo": a})
         if dmg is not None and dmg.get("mode") == "swap":
@@ -861,6 +924,10 @@ def algo_program(rng, ncases, lanes=ALL_LANES):
             dd = rng.choice(datas)
             a1, a2 = rng.sample(["sha512", "sha384", "sha256", "sha1"], 2)
             multi = [{"a": a1, "d": dd}, {"a": a2, "d": dd}]
+            if rng.random() < 0.4:
+                # ... or two digests of ONE algorithm (of two different data values)
+                d2 = rng.choice([x for x in datas if x != dd] or [dd])
+                multi = [{"a": a1, "d": dd}, {"a": a1, "d": d2}]
             prog["steps"].append({"op": "exists", "lane": rng.choice(lanes), "sri": multi})
             prog["steps"].append({"op": "read", "lane": rng.choice(lanes), "sri": multi})
             if rng.random() < 0.3:
@@ -887,7 +954,10 @@ def link_program(rng, ncases, lanes=ALL_LANES):
         d = _mk_data(prog, rng, n)
         lane = rng.choice(lanes)
         t = "t%d" % c
-        prog["steps"].append({"op": "env_ext", "id": t, "blob": d})
+        tstep = {"op": "env_ext", "id": t, "blob": d}
+        if rng.random() < 0.35:
+            tstep["mode"] = rng.choice([0o444, 0o400, 0o440])     # a read-only target stays read-only
+        prog["steps"].append(tstep)
         keyed = rng.random() < 0.75
         key = add_key(prog, rand_key(rng, c)) if keyed else None
         rel = rng.random() < 0.35
@@ -986,8 +1056,11 @@ def link_program(rng, ncases, lanes=ALL_LANES):
         prog["steps"].append({"op": "open_reader", "lane": lane, "sri": sri, "as": r})
         prog["steps"].append({"op": "r_read", "lane": lane, "h": r, "n": 4096, "all": True})
         prog["steps"].append({"op": "r_check", "lane": lane, "h": r})
-        if rng.random() < 0.2:
+        rr = rng.random()
+        if rr < 0.25:
             prog["steps"].append({"op": "remove_hash", "lane": rng.choice(lanes), "sri": sri})
+        elif rr < 0.45 and key:
+            prog["steps"].append({"op": "remove_fully", "lane": rng.choice(lanes), "key": key})
     return prog
 
 
@@ -1232,6 +1305,55 @@ def cancel_program(rng, lanes=("Aa", "Ta")):
                         prog["steps"].append({"op": "w_flush", "lane": lane, "h": a})
                 prog["steps"].append({"op": "w_commit", "lane": lane, "h": a})
                 prog["steps"].append({"op": "list", "lane": "S"})
+    return prog
+
+
+def twofs_program(rng, lanes=ALL_LANES, ndest=40):
+    """(sessions with the cache and the destinations on two fresh file systems) many destination
+    files that exist already - their inode numbers cover those of the cache's content files, on
+    ANOTHER device - and copies of every entry onto each of them, checked and unchecked, by key and
+    by address: each destination ends up holding the entry's bytes"""
+    prog = {"keys": {}, "blobs": {}, "steps": []}
+    pre = add_blob(prog, b"stale destination %d" % rng.randrange(10 ** 6))
+    ents = []
+    for i, n in enumerate((50, 5000)):
+        d = _mk_data(prog, rng, n)
+        k = add_key(prog, rand_key(rng, i))
+        prog["steps"].append({"op": "write", "lane": rng.choice(lanes), "key": k, "data": d, "algo": "sha256"})
+        ents.append((k, d))
+    for j in range(ndest):
+        prog["steps"].append({"op": "env_ext", "id": "tf%d" % j, "blob": pre})
+    for (k, d) in ents:
+        for j in range(ndest):
+            st = {"op": "extract", "lane": rng.choice(lanes), "kind": "copy", "checked": rng.random() < 0.5, "to": "tf%d" % j}
+            st.update({"key": k} if rng.random() < 0.5 else {"sri": [{"a": "sha256", "d": d}]})
+            prog["steps"].append(st)
+        for j in range(ndest):          # (and back to the stale bytes for the next entry)
+            prog["steps"].append({"op": "env_ext", "id": "tf%d" % j, "blob": pre})
+    return prog
+
+
+def pid1_program(rng, lanes=("S", "Aa", "Ta")):
+    """processes that are PID 1 of a fresh pid namespace (every container start): one opens a
+    writer, feeds it and dies; the next ones - PID 1 again, every counter of theirs at zero again -
+    write the same and other keys.  What a dead process left in tmp/ is nobody's: it must not get
+    in the way, whatever names the library gives its temp files."""
+    prog = {"keys": {}, "blobs": {}, "steps": []}
+    k0 = add_key(prog, "pid1-bystander-%d" % rng.randrange(10 ** 6))
+    d0 = _mk_data(prog, rng, 9)
+    prog["steps"].append({"op": "write", "lane": "S", "key": k0, "data": d0, "algo": "sha256"})
+    for i, lane in enumerate(lanes):
+        k = add_key(prog, "pid1-%d-%d" % (i, rng.randrange(10 ** 6)))
+        d1 = _mk_data(prog, rng, rng.choice([40, 70000]))
+        d2 = _mk_data(prog, rng, 100)
+        prog["steps"].append({"op": "pid1_abandon", "lane": lane, "key": k, "data": d1})
+        prog["steps"].append({"op": "metadata", "lane": rng.choice(ALL_LANES), "key": k})
+        for _ in range(2):
+            prog["steps"].append({"op": "write", "lane": lane, "key": k, "data": d2, "algo": "sha256", "pid1": True})
+            prog["steps"].append({"op": "read", "lane": rng.choice(ALL_LANES), "key": k})
+        prog["steps"].append({"op": "write", "lane": lane, "data": d1, "algo": "sha256", "pid1": True})
+        prog["steps"].append({"op": "read", "lane": rng.choice(ALL_LANES), "key": k0})
+        prog["steps"].append({"op": "list", "lane": "S"})
     return prog
 
 
